@@ -354,6 +354,90 @@ theorem xrun_inv (s : XSys) (hi : XInv E toc0 pers s) (cs : List XChoice) : XInv
   | nil => exact hi
   | cons c cs ih => exact ih _ (xstep_inv E toc0 pers hnd hE hmem s hi c)
 
+/-! ## progress of the extended-type phase -/
+
+def XSys.remaining (s : XSys) : Nat := 2 * s.x.count.toNat - (if s.x.locked then 1 else 0)
+
+theorem xprogress (s : XSys) (hi : XInv E toc0 pers s) (hd : s.x.done = 0) :
+    ∃ c, (s.step pers c).remaining < s.remaining := by
+  cases hi with
+  | idle k hk htoc hcount hdone hpool hreq hlock hq =>
+    have hlt : k < E.length := by
+      by_cases hke : k = E.length
+      · rw [hdone, if_pos hke] at hd; cases hd
+      · omega
+    refine ⟨.worker, ?_⟩
+    have hdrop : E.drop k = E[k] :: E.drop (k + 1) := List.drop_eq_getElem_cons hlt
+    have hw : s.x.worker = some ({ s.x with queue := E.drop (k + 1), locked := true, reqParam := some E[k] }, xreq E[k]) := by
+      unfold ExtF.worker
+      rw [hq, hdrop, hlock]
+      simp only [extRequest_eq E[k] (hE _ (List.getElem_mem hlt))]
+    simp only [XSys.step, hw, XSys.remaining, hlock, hcount]
+    have : ((E.length : Int) - (k : Int)).toNat = E.length - k := by omega
+    rw [this]
+    simp
+    omega
+  | busy k hk htoc hcount hdone hpool hreq hlock hq hin =>
+    obtain ⟨i, hi⟩ := List.mem_iff_getElem?.mp hin
+    refine ⟨.reply i, ?_⟩
+    have hjE : E[k] ∈ E := List.getElem_mem hk
+    have hidents : (s.x.toc.elems.map (·.ident)) = toc0.elems.map (·.ident) := by
+      rw [htoc, mapElems_elems, List.map_map]
+      apply List.map_congr_left
+      intro e _
+      simp
+    obtain ⟨e, he⟩ : ∃ e, s.x.toc.byId E[k] = some e := by
+      have hin' : E[k] ∈ s.x.toc.elems.map (·.ident) := by rw [hidents]; exact hmem _ hjE
+      obtain ⟨e, he, hei⟩ := List.mem_map.mp hin'
+      cases hf : s.x.toc.byId E[k] with
+      | some e' => exact ⟨e', rfl⟩
+      | none =>
+        unfold Toc.byId at hf
+        rw [List.find?_eq_none] at hf
+        have := hf e he
+        simp [hei] at this
+    have hstep := xonPacket_awaited s.x pers E[k] (hE _ hjE) hreq e he
+    simp only [XSys.step, hi]
+    unfold XSys.deliver
+    have hc1 : (s.x.count - 1).toNat = E.length - k - 1 := by rw [hcount]; omega
+    have hc0 : s.x.count.toNat = E.length - k := by rw [hcount]; omega
+    by_cases hlast : s.x.count - 1 = 0
+    · rw [if_pos hlast] at hstep
+      rw [hstep]
+      simp only [XSys.remaining, hlock, hc1, hc0]
+      simp
+      omega
+    · rw [if_neg hlast] at hstep
+      rw [hstep]
+      simp only [XSys.remaining, hlock, hc1, hc0]
+      simp
+      omega
+
+theorem xcompletes (n : Nat) (s : XSys) (hi : XInv E toc0 pers s) (hn : s.remaining ≤ n) :
+    ∃ cs : List XChoice, cs.length ≤ n ∧ (s.run pers cs).x.done = 1 := by
+  have hdone_cases : s.x.done = 0 ∨ s.x.done = 1 := by
+    cases hi with
+    | idle k _ _ _ hdone => rw [hdone]; split <;> simp
+    | busy k _ _ _ hdone => exact Or.inl hdone
+  induction n generalizing s with
+  | zero =>
+    rcases hdone_cases with h0 | h1
+    · obtain ⟨c, hc⟩ := xprogress E toc0 pers hnd hE hmem s hi h0
+      omega
+    · exact ⟨[], Nat.le_refl _, h1⟩
+  | succ n ih =>
+    rcases hdone_cases with h0 | h1
+    · obtain ⟨c, hc⟩ := xprogress E toc0 pers hnd hE hmem s hi h0
+      have hi' := xstep_inv E toc0 pers hnd hE hmem s hi c
+      have hd' : (s.step pers c).x.done = 0 ∨ (s.step pers c).x.done = 1 := by
+        cases hi' with
+        | idle k _ _ _ hdone => rw [hdone]; split <;> simp
+        | busy k _ _ _ hdone => exact Or.inl hdone
+      obtain ⟨cs, hlen, hfin⟩ := ih (s.step pers c) hi' (by omega) hd'
+      exact ⟨c :: cs, by simp; omega, hfin⟩
+    · exact ⟨[], Nat.zero_le _, h1⟩
+
 end xinv
+
 
 end CfVerif.C03
